@@ -53,8 +53,9 @@ impl PatchList {
         let mut patches = vec![];
 
         let mut patch_length = 0;
-        if let Some(patch_length_index) = encoded.find("X-Patch-Length: ") {
-            let rest_of_string = &encoded[patch_length_index..];
+        const PATCH_LENGTH_HEADER: &str = "X-Patch-Length: ";
+        if let Some(patch_length_index) = encoded.find(PATCH_LENGTH_HEADER) {
+            let rest_of_string = &encoded[patch_length_index + PATCH_LENGTH_HEADER.len()..];
             if let Some(end_of_number_index) = rest_of_string.find("\r\n") {
                 let patch_length_parse: Result<u64, _> =
                     rest_of_string[0..end_of_number_index].parse();
